@@ -187,6 +187,21 @@ def body(ch):
         dcons = list(ch.pick('date_constraints', list(itertools.combinations(DATE_CONS, nd))))
         tcons = list(ch.pick('time_constraints', [()] + [(t,) for t in TIME_CONS] + [tuple(TIME_CONS[:2])]))
         cons = dcons + tcons
+        # history: the same process first evaluates the first constraint together with a range that overlaps it (collapsing
+        # ranges must not change what a later call sees)
+        hist = None
+        if nd == 1 and not tcons:
+            lo, hi = CON_RANGES[dcons[0]]
+            overl = [c for c in DATE_CONS if c != dcons[0] and CON_RANGES[c][0] < hi and lo < CON_RANGES[c][1]]
+            hist = ch.pick('history', [None] + overl)
+            if hist:
+                try:
+                    from vmc.explore import time_limit
+                    with time_limit(3):
+                        T['evaluate'](cands, [dcons[0], hist])
+                        T['evaluate'](cands, [hist, dcons[0]])
+                except Exception:
+                    pass
         key = 'evaluate|%s' % '+'.join(sorted({'weekday' if 'WXX' in c and 'T' not in c else 'weekday+time' if 'WXX' in c else
                                                 'time' if c.startswith('T') else 'feb-29' if c == 'XXXX-02-29' else 'month-day' for c in cands}))
         from vmc.explore import LeafTimeout, time_limit
@@ -202,7 +217,9 @@ def body(ch):
             fail(ch, '%s|exception|%s|%s' % (key, type(e).__name__, 'december-constraint' if '2017-12' in dcons else 'other'),
                  candidates=cands, constraints=cons, error=repr(e))
             return
-        rec = dict(candidates=cands, constraints=cons, observed=out)
+        rec = dict(candidates=cands, constraints=cons, observed=out, history=hist)
+        if hist:
+            key += '|after-evaluating-with-an-overlapping-range'
         for tx in out:
             d, tsec = None, None
             try:
